@@ -634,6 +634,8 @@ def tasks_for(tier):
     for pat in ('group', 'plain'):
         for core in (0, 1, 2):
             T.append(dict(files=[[B(pattern=pat, core=core, lead=1, trail=1, reply=('text', 2))]], key=True, model_env=False, url_env=False))
+    for core in (0, 1, 2):      # a `value` group that does not always take part: the whole match is the extract then
+        T.append(dict(files=[[B(pattern='optgroup', core=core, lead=1, trail=1, reply=('text', 2))]], key=True, model_env=False, url_env=False))
     for lead, trail in ((1, 0), (0, 1), (2, 1)):
         T.append(dict(files=[[B(pattern='edge', core=1, lead=lead, trail=trail, reply=('text', 2))]], key=True, model_env=False, url_env=False))
     T.append(dict(files=[[B(core=0, lead=2, reply=('text', 2))]], key=True, model_env=False, url_env=False))
